@@ -407,3 +407,45 @@ def test_c11_sequence_for_a_scalar_slot_is_refused():
     with pytest.raises(ValueError):
         a[2] = [5.0, 6.0]
     assert (a[2], b[0]) == (3.0, 7.0)
+
+
+def test_c18_reference_attribute_of_a_by_value_copy_denotes_the_copy_s_referent():
+    class In(xo.HybridClass):
+        _xofields = {"a": xo.Int64}
+
+    class MidR(xo.HybridClass):
+        _xofields = {"k": xo.Int64, "r": xo.Ref(In)}
+
+    class OutR(xo.HybridClass):
+        _xofields = {"mid": MidR, "t": xo.Float64}
+
+    b1, b2 = ctx.new_buffer(1024), ctx.new_buffer(1024)
+    inner = In(a=1, _buffer=b1)
+    mid = MidR(k=2, _buffer=b1)
+    mid.r = inner
+    outer = OutR(mid={"k": 0}, t=1.0, _buffer=b2)
+    outer.mid = mid
+    outer.mid.r.a = 77
+    assert outer.mid._xobject.r.a == 77 and inner.a == 1 and outer.mid.r._buffer is outer._buffer
+
+
+def test_c01_static_array_from_a_view_of_a_dynamic_array():
+    class D(xo.Struct):
+        v = xo.Float64[:]
+
+    d = D(v=[1, 2, 3])
+    assert list(xo.Float64[3](d.v).to_nparray()) == [1.0, 2.0, 3.0]
+
+
+def test_c19_field_object_taken_over_by_a_second_class():
+    class A(xo.HybridClass):
+        _xofields = {"x": xo.Field(xo.Float64, default=1.5), "y": xo.Int64}
+
+    d = A(x=2.5, y=7).to_dict()
+
+    class B(xo.HybridClass):
+        _xofields = {"n": xo.Int64, **A._xofields}
+
+    a = A.from_dict(d)
+    b = B(n=1, x=3.5, y=8)
+    assert (a.x, a.y) == (2.5, 7) and (b.n, b.x, b.y) == (1, 3.5, 8)
